@@ -3,13 +3,15 @@
     it imports), witnesses in C06/Witness.v.
 
     Vocabulary (C06/Model.v, C06/Spec.v):
-    - [run ops] the repository model (AddRuleSet / UpdateRuleSet / DeleteRuleSet of
-      repository_impl.go over the abstract index) after the history [ops];
+    - [run fx ops] the repository model (AddRuleSet / UpdateRuleSet / DeleteRuleSet of
+      repository_impl.go over the abstract index) after the history [ops]; [fx]
+      says which of the candidate repairs fixes/C06-F3/F4/F5.diff the code
+      contains ([no_fix]: none) — the theorems hold for every [fx];
     - [current ops] the rule sets that exist after [ops] according to the
       specification: a creation / update that can be applied ([spec_ok]: all
       path expressions valid, no expression owned by another rule set) replaces
       the set, one that cannot is ignored, a deletion removes it;
-    - [fresh S] the model after loading the sets [S] once into an empty instance;
+    - [fresh fx S] the model after loading the sets [S] once into an empty instance;
     - [wf_history] a rule set is only created when it does not exist;
     - [no_guard ops] none of the guards of the recorded findings C06-F1 … F6 fires
       on [ops].  ([guard_F3] and [guard_F5] are about node compression and key
@@ -20,67 +22,68 @@ From HV Require Import Base.Prelude C06.Pat C06.Model C06.Spec C06.Tree C06.Proo
 
 (** the index after any history is the index of a fresh load of the current
     rule sets (the index is kept in a canonical order, so this is equality) *)
-Theorem C06_history_equals_fresh : forall ops,
+Theorem C06_history_equals_fresh : forall fx ops,
   wf_history ops = true -> no_guard ops = true ->
-  index (run ops) = index (fresh (current ops)).
+  index (run fx ops) = index (fresh fx (current ops)).
 Proof. exact history_equals_fresh. Qed.
 Print Assumptions C06_history_equals_fresh.
 
 (** hence every request, under every outcome of the rules' conditions, finds the
     same rule as in a fresh instance *)
-Theorem C06_lookups_equal_fresh : forall ops,
+Theorem C06_lookups_equal_fresh : forall fx ops,
   wf_history ops = true -> no_guard ops = true ->
-  forall faithful path (conditions : route -> bool),
-    find_rule faithful (index (run ops)) path conditions =
-    find_rule faithful (index (fresh (current ops))) path conditions.
+  forall pinned_lookup path (conditions : route -> bool),
+    find_rule pinned_lookup (index (run fx ops)) path conditions =
+    find_rule pinned_lookup (index (fresh fx (current ops))) path conditions.
 Proof. exact lookups_equal_fresh. Qed.
 Print Assumptions C06_lookups_equal_fresh.
 
 (** a rejected change leaves the repository unchanged — for every state and
     every operation, no hypothesis *)
-Theorem C06_rejected_is_noop : forall (st : repo) o st' e,
-  step st o = (st', Some e) -> st' = st.
+Theorem C06_rejected_is_noop : forall fx (st : repo) o st' e,
+  step fx st o = (st', Some e) -> st' = st.
 Proof. exact rejected_is_noop. Qed.
 Print Assumptions C06_rejected_is_noop.
 
 (** after any history, an operation is rejected exactly when it cannot be applied
     (invalid path expression, expression owned by another rule set), and then
     nothing changes *)
-Theorem C06_rejected_iff_cannot_apply : forall ops o,
+Theorem C06_rejected_iff_cannot_apply : forall fx ops o,
   wf_history (ops ++ [o]) = true -> no_guard (ops ++ [o]) = true ->
-  exists st' res, step (run ops) o = (st', res) /\
-    (res = None <-> spec_ok (current ops) o = true) /\ (res <> None -> st' = run ops).
+  exists st' res, step fx (run fx ops) o = (st', res) /\
+    (res = None <-> spec_ok (current ops) o = true) /\ (res <> None -> st' = run fx ops).
 Proof. exact rejected_iff_cannot_apply. Qed.
 Print Assumptions C06_rejected_iff_cannot_apply.
 
 (** rules of deleted or replaced versions never match again: whatever a lookup
     returns belongs to the current version of an existing rule set *)
-Theorem C06_deleted_never_match : forall ops,
+Theorem C06_deleted_never_match : forall fx ops,
   wf_history ops = true -> no_guard ops = true ->
-  forall faithful path conditions r,
-    find_rule faithful (index (run ops)) path conditions = Some r ->
+  forall pinned_lookup path conditions r,
+    find_rule pinned_lookup (index (run fx ops)) path conditions = Some r ->
     In (r_def r) (get_set (current ops) (r_src r)).
 Proof. exact found_is_current. Qed.
 Print Assumptions C06_deleted_never_match.
 
 (** same-source constraint: the rules sharing a path expression come from one rule set *)
-Theorem C06_same_source_constraint : forall ops,
+Theorem C06_same_source_constraint : forall fx ops,
   wf_history ops = true -> no_guard ops = true ->
-  forall q n x y, get (index (run ops)) q = Some n -> In x (vals n) -> In y (vals n) -> rt_src x = rt_src y.
+  forall q n x y, get (index (run fx ops)) q = Some n -> In x (vals n) -> In y (vals n) -> rt_src x = rt_src y.
 Proof. exact node_has_one_source. Qed.
 Print Assumptions C06_same_source_constraint.
 
-(** ** the findings: each guard fires on a history on which the property fails *)
+(** ** the findings: each guard fires on a history on which the property fails
+    (for the code without the candidate repairs: [run] is [Model.run no_fix] etc.) *)
 
 Theorem C06_F1_refuted : exists ops meth path,
   wf_history ops = true /\ guard_F1 ops = true /\
-  m_answer (run ops) meth path <> m_answer (fresh (current ops)) meth path.
+  m_answer (run no_fix ops) meth path <> m_answer (fresh no_fix (current ops)) meth path.
 Proof. exists w_F1, 0, "/x"%string. destruct w_F1_ok as (A & B & C & D). rewrite C, D. repeat split; auto. discriminate. Qed.
 Print Assumptions C06_F1_refuted.
 
 Theorem C06_F2_refuted : exists ops meth path,
   wf_history ops = true /\ guard_F2 ops = true /\
-  m_answer (run ops) meth path <> m_answer (fresh (current ops)) meth path.
+  m_answer (run no_fix ops) meth path <> m_answer (fresh no_fix (current ops)) meth path.
 Proof. exists w_F2, 0, "/y"%string. destruct w_F2_ok as (A & B & C & D). rewrite C, D. repeat split; auto. discriminate. Qed.
 Print Assumptions C06_F2_refuted.
 
@@ -93,13 +96,13 @@ Print Assumptions C06_F3_refuted.
 
 Theorem C06_F4_refuted : exists ops meth path,
   wf_history ops = true /\ guard_F4 ops = true /\
-  m_answer (run ops) meth path <> m_answer (fresh (current ops)) meth path.
+  m_answer (run no_fix ops) meth path <> m_answer (fresh no_fix (current ops)) meth path.
 Proof. exists w_F4, 0, "/d"%string. destruct w_F4_ok as (A & B & C & D). rewrite C, D. repeat split; auto. discriminate. Qed.
 Print Assumptions C06_F4_refuted.
 
 (** the same defect can end in a Go panic instead of an error *)
 Theorem C06_F4_panic : exists ops s,
-  guard_F4 ops = true /\ snd (t_step (t_run ops) (Delete s)) = Some EPanic.
+  guard_F4 ops = true /\ snd (t_step no_fix (t_run ops) (Delete s)) = Some EPanic.
 Proof. exists w_F4p, 0. exact w_F4p_ok. Qed.
 Print Assumptions C06_F4_panic.
 
@@ -111,7 +114,7 @@ Print Assumptions C06_F5_refuted.
 
 Theorem C06_F6_refuted : exists ops meth path,
   wf_history ops = true /\ guard_dupid ops = true /\
-  m_answer (run ops) meth path <> m_answer (fresh (current ops)) meth path.
+  m_answer (run no_fix ops) meth path <> m_answer (fresh no_fix (current ops)) meth path.
 Proof. exists w_F6, 0, "/p"%string. destruct w_F6_ok as (A & B & C & D). rewrite C, D. repeat split; auto. discriminate. Qed.
 Print Assumptions C06_F6_refuted.
 
@@ -121,7 +124,7 @@ Print Assumptions C06_F6_refuted.
     hypotheses of the theorems above *)
 Example C06_nonvacuous :
   wf_history w_plain = true /\ no_guard w_plain = true /\
-  length (current w_plain) = 3 /\ length (index (run w_plain)) = 3 /\
-  m_answer (run w_plain) 1 "/b/x" = Some 10 /\ m_answer (run w_plain) 0 "/ab/zz" = Some 50.
+  length (current w_plain) = 3 /\ length (index (run no_fix w_plain)) = 3 /\
+  m_answer (run no_fix w_plain) 1 "/b/x" = Some 10 /\ m_answer (run no_fix w_plain) 0 "/ab/zz" = Some 50.
 Proof. destruct w_plain_ok as (A & B & _ & C & D & E & _ & F & _). repeat split; assumption. Qed.
 Print Assumptions C06_nonvacuous.
